@@ -1,9 +1,9 @@
 (* C08 -- the closing handshake completes correctly in both directions.  Statements only. *)
-From Coq Require Import List NArith Bool.
+From Coq Require Import List NArith ZArith Bool.
 From Coq.Strings Require Import Byte.
 From RecordUpdate Require Import RecordSet.
-From Model Require Import Bytes Frame Conn.
-From Proofs Require Import ApiFacts CloseFacts.
+From Model Require Import Bytes Utf8 Frame Conn.
+From Proofs Require Import ApiFacts CloseFacts DeliveryFacts StreamViolation CloseStream.
 Import ListNotations RecordSetNotations.
 Open Scope N_scope.
 
@@ -62,3 +62,28 @@ Theorem C08_server_close_echoed : forall cf app c code reason,
 Proof. exact server_close_is_echoed. Qed.
 Theorem C08_closed_ends_gracefully : forall cf app steps c, k_closed c = true -> loop cf app steps c = finish app c SOk.
 Proof. exact closed_ends_gracefully. Qed.
+
+(* The whole stream, server-initiated direction: a conforming frame list (any fragmentation, control frames anywhere, any
+   length forms), then the server's Close frame -- empty, or a valid status code with a UTF-8 reason -- in any length form.
+   For any application that only sends: the prefix's messages are delivered, then exactly one Closing event carrying the
+   server's code and reason, no ProtocolError, and the client is closing (not closed).  For a passive application on a
+   working transport the frames written are the Pongs owed for the prefix and then exactly one Close frame whose payload is
+   byte-for-byte the server's (same code, same reason). *)
+Theorem C08_server_close_after_conforming_prefix : forall cf app, benign app -> zpos (c_ping_timeout cf) = None ->
+  forall fs lfs c open ms open' f lf code reason,
+  idle c open -> data_head open -> Forall plain fs -> forms_ok fs lfs ->
+  ref_messages open fs = Some (ms, open') ->
+  plain f -> f_op f = OP_CLOSE -> f_fin f = true -> blen (f_payload f) <= 125 -> form_ok lf (blen (f_payload f)) = true ->
+  good_close (f_payload f) code reason ->
+  exists c', feedf cf app c (encode_all fs lfs ++ enc_frame f lf) = (c', SOk) /\
+    msg_events (k_tr c') = EvClosing code reason :: rev (map ev_of ms) ++ msg_events (k_tr c) /\
+    perrors (k_tr c') = perrors (k_tr c) /\
+    k_closing c' = true /\ k_closed c' = false /\
+    (passive app -> c_ping_rate cf = 0%Z -> c_auto_pong cf = true -> wok c ->
+     writes (k_tr c') = (OP_CLOSE, f_payload f) :: rev (pong_replies ms) ++ writes (k_tr c)).
+Proof. exact server_close_after_prefix. Qed.
+Print Assumptions C08_server_close_after_conforming_prefix.
+
+Example C08_good_close_nonvacuous :
+  good_close [] None [] /\ good_close [x03; xe8; x62; x79; x65] (Some 1000) [x62; x79; x65].
+Proof. split; [left; repeat split; reflexivity|right; exists x03, xe8; repeat split; reflexivity]. Qed.
